@@ -61,7 +61,14 @@ def sec_seeded():
     for n in sorted(res):
         meta = json.load(open(os.path.join(ROOT, "seeded", n, "meta.json")))
         r = res[n]
-        cell = "; ".join("%s: %s" % (c, ("VIOLATION" + (" (no-failing-input-found)" if any("no-failing-input-found" in v for v in x["violation_lines"]) else " with replay")) if x["violation_lines"] else "MISSED (rc=%d)" % x["rc"]) for c, x in r.items()) if isinstance(r, dict) else str(r)
+        def one(c, x):
+            L_ = x["violation_lines"]; nf = sum(1 for v in L_ if "no-failing-input-found" in v)
+            if not L_:
+                return "%s: not reported (exit %d)" % (c, x["rc"])
+            if nf == len(L_):
+                return "%s: VIOLATION, no-failing-input-found (%d)" % (c, len(L_))
+            return "%s: VIOLATION with concrete replay (%d reported%s)" % (c, len(L_), ", %d of them naming only the broken obligation" % nf if nf else "")
+        cell = "; ".join(one(c, x) for c, x in r.items()) if isinstance(r, dict) else str(r)
         L.append("| %s | %s | %s | %s |" % (n, meta.get("property"), str(meta.get("what_it_needs_to_manifest", meta.get("summary", "")))[:260].replace("|", "/").replace("\n", " "), cell))
     return "\n".join(L)
 
